@@ -18,7 +18,7 @@ NOTES = {
  'C04': ("proptest (value x option record, incl. large values) + bounded-exhaustive product of 570 small values x ~750/3150 option records + libFuzzer (thorough): printed text accepted by the reference automaton, denotes the original tree, re-parses to an equal value, and minus insignificant whitespace equals the reference compact form; values built through nine construction routes (constructors, push, parsing of compact and of escaped renderings, clone, From/FromIterator, Extend, the serde bridges) and values post-processed in place (canonicalize, sort, as_*_mut mutation) before printing",
          "trusts refjson.rs and refprint.rs",
          "PBT: round-trip + differential vs reference automaton/serializer"),
- 'C05': ("every valid document among all strings <= 7/8 over the 18-character alphabet and all token sequences <= 6/7, proptest renderings with heavy whitespace (incl. large documents); code map of 6 entry points and of `parse` over UTF-16/constant character lengths == reference fragment table; span text re-parses to the fragment",
+ 'C05': ("every valid document among all strings <= 7/8 over the 18-character alphabet and all token sequences <= 6/7, proptest renderings with heavy whitespace (incl. large documents) and documents that only parse under the flexible options; code map of 6 entry points and of `parse` over UTF-16/constant character lengths == reference fragment table; span text re-parses to the fragment",
          "trusts the reference fragment builder in refjson.rs",
          "PBT: bounded-exhaustive + proptest, differential vs reference fragment table"),
  'C06': ("state-exhaustive (every entry list <= 5/6 over 2/3 keys x every operation instance x two construction routes), history-exhaustive (every history <= 4/5 over ~75 operation instances, cloned walk + fresh replay), long random histories over 85 keys, 1200-key histories (index growth to several hundred keys), 3-key histories (dozens of duplicates), operations incl. clone_from and canonicalize over keys above U+FFFF; after every operation: entries, result, full query battery and hook-dumped index vs a list model",
@@ -54,7 +54,7 @@ NOTES = {
  'C16': ("proptest instances of a derive-annotated type family covering every data-model shape the serializer implements (all integer widths at bounds, f32/f64 from random bits, Unicode, maps keyed by String/i64/i8/u8/u64/char/unit variant/newtype): round trip, shape agreement with serde_json, deserialization of serde_json's Value and text rendering; 2M/50M isolated floats",
          "serde_json is the reference the property names; exclusions listed in DESIGN C16",
          "PBT: round-trip + differential vs serde_json"),
- 'C17': ("proptest values outside the known-finding classes (exact serialization model incl. duplicate collapse; Value->Value and text->Value deserialization), all number spellings with class-predicate attribution of the 4 open findings, large shapes, duplicated keys whose values are permutations of each other, fixed probes; libFuzzer value_laws target (thorough)",
+ 'C17': ("proptest values outside the known-finding classes (exact serialization model incl. duplicate collapse; Value->Value and text->Value deserialization), all number spellings with class-predicate attribution of the 4 open findings, large shapes, duplicated keys whose values are permutations of each other, keys that merely resemble serde_json's private number token, fixed probes; libFuzzer value_laws target (thorough)",
          "serde_json with /repo's features; open findings K02-K05 matched by machine-computed class predicates only",
          "PBT: proptest, model + differential vs serde_json"),
  'C18': ("proptest serde_json values (all three number representations, private-token objects), json-syntax values of the stated domain (incl. exactly respelled special doubles), unrestricted values for the no-panic clause; a float difference is attributed to the open finding only if bit-equal to serde_json's own FromStr of that token",
